@@ -1423,7 +1423,7 @@ func record(d drawn) {
 func TestTrimAPI(t *testing.T) {
 	rapid.Check(t, func(rt *rapid.T) {
 		d := genCase(rt, "api")
-		d.c.Compile = rapid.IntRange(0, 11).Draw(rt, "compile") == 0
+		d.c.Compile = rapid.IntRange(0, 29).Draw(rt, "compile") == 0 && os.Getenv("C16_NOCOMPILE") == ""
 		record(d)
 		if err := judge(d.c); err != nil {
 			vt.Fail(rt, prop, "trim", d.c, "%v", err)
